@@ -414,7 +414,7 @@ def h_archive(I, fi):
     if adds:
         dsl.cover(I, "archive.included")
         tab = [e for e in log if e[0] == "table"]
-        P.check("archive.exactly-the-top-ranked", included, "a topology is archived only when its rank is below the requested number", kind="post")
+        P.check("archive.exactly-the-top-ranked", P.z(rank) < P.z(top), "a topology is archived only when its rank is below the requested number", kind="post")
         P.check("archive.table-of-that-tree", len(tab) == 1 and tab[0][3] is tree and tab[0][1] == ("trace-field", "data") and tab[0][2] == ("trace-field", "samples") and tab[0][4] == ("trace-field", "clusters"),
                 "its table is the clone table of that very tree with the trace's data, samples and clusters", kind="post")
         pr = [e for e in log if e[0] == "print"]
@@ -422,4 +422,4 @@ def h_archive(I, fi):
         P.check("archive.two-members-per-topology", len(adds) == 2, "two archive members per topology: table and tree", kind="post")
     else:
         dsl.cover(I, "archive.excluded")
-        P.check("archive.exactly-the-top-ranked[skip]", excluded and not [e for e in log if e[0] in ("csv", "table", "print")], "a topology ranked at or beyond the requested number is skipped entirely", kind="post")
+        P.check("archive.exactly-the-top-ranked[skip]", dsl.conj(not [e for e in log if e[0] in ("csv", "table", "print")], P.z(rank) >= P.z(top)), "a topology ranked at or beyond the requested number is skipped entirely", kind="post")
